@@ -107,8 +107,9 @@ def match_finding(prop, key, findings):
             continue
         if fd.get("cls") not in ("*", key.get("cls")):
             continue
-        cl = fd.get("clause", "*")
-        if not (cl == "*" or cl == key.get("clause") or (cl.endswith("*") and key.get("clause", "").startswith(cl[:-1]))):
+        cls_ = fd.get("clause", "*")
+        if not any(cl == "*" or cl == key.get("clause") or (cl.endswith("*") and key.get("clause", "").startswith(cl[:-1]))
+                   for cl in (cls_ if isinstance(cls_, list) else [cls_])):
             continue
         if fd.get("region", "*") not in ("*", key.get("region")):
             continue
